@@ -672,9 +672,42 @@ def check_proofs(ctx, pid, binfo):
         r["failed"] = ["assumptions"]
         return r
     r["print_assumptions_closed"] = closed
+    if ctx.tier == "thorough":
+        ck = run_coqchk(ctx)
+        r["coqchk"] = ck
+        if not ck.get("ok"):
+            r["detail"] = "coqchk: " + ck.get("summary", "")[-600:]
+            r["failed"] = ["coqchk"]
+            return r
     r["discharged"] = len(names)
     r["ok"] = True
     return r
+
+
+def run_coqchk(ctx):
+    """thorough tier: the independent checker re-checks every compiled property file with all its dependencies and
+    reports the axioms they rely on; one run for all properties, cached on the hash of the Coq sources."""
+    vs = glob.glob(os.path.join(ctx.coq, "**", "*.v"), recursive=True)
+    key = sha_files(vs)[:20]
+    cf = os.path.join(ctx.cache, "coqchk-%s.json" % key)
+    with Lock(os.path.join(ctx.cache, "coqchk.lock")):
+        if os.path.exists(cf):
+            return json.load(open(cf))
+        mods = []
+        for pid in PROPS:
+            if os.path.exists(os.path.join(ctx.coq, "props", pid + ".v")):
+                # make sure the compiled file is there and fresh
+                sh("timeout 1200 coqc -Q gen Arimaa -Q model Arimaa -Q spec Arimaa -Q proofs Arimaa -Q props Arimaa props/%s.v" % pid, cwd=ctx.coq, timeout=1300)
+                mods.append("Arimaa." + pid)
+        rc, out, dt = sh("timeout 3000 coqchk -silent -o -Q gen Arimaa -Q model Arimaa -Q spec Arimaa -Q proofs Arimaa -Q props Arimaa " + " ".join(mods),
+                         cwd=ctx.coq, timeout=3100)
+        ok = rc == 0 and "Axioms: <none>" in out and "type-in-type: <none>" in out and "unsafe (co)fixpoints: <none>" in out \
+            and "positivity is assumed: <none>" in out
+        res = {"ok": ok, "rc": rc, "seconds": round(dt, 1), "modules": len(mods), "summary": " ".join(out.split())[-700:]}
+        for old in glob.glob(os.path.join(ctx.cache, "coqchk-*.json")):
+            os.remove(old)
+        json.dump(res, open(cf, "w"))
+        return res
 
 
 # ---------------------------------------------------------------------------------------------
@@ -1026,6 +1059,7 @@ def check_property(ctx, pid):
             "trusted_base": TRUSTED_BASE + (["standard-library axioms used: " + ", ".join(proofs["axioms"])] if proofs["axioms"] else
                                             ["Print Assumptions: closed under the global context for every theorem of props/%s.v" % pid]),
             "theorems": proofs["theorems"],
+            "coqchk": proofs.get("coqchk"),
             "evaluations": max(cov_eval, 1), "distinct_nontrivial": max(cov_dist, 0),
             "rule": RULES.get(pid, ""),
             "samples": samples or [{"note": "no trace available"}],
